@@ -85,6 +85,9 @@ def mask_family():
                         if not close(w, new.get_score() - tr.get_score()):
                             fail("mask.edit: weight != new score - old score", pre=pre, post=post, w=w,
                                  delta=new.get_score() - tr.get_score(), constraint=cons, newmu=newmu)
+                        rv = Diff.tree_primal(rd)
+                        if not (isinstance(rv, Mask) and bool(jnp.all(rv.primal_flag() == bool(post)))):
+                            fail("mask.edit: the retdiff's primal is not a Mask carrying the NEW flag", pre=pre, post=post)
 
 
 def distribution_family():
@@ -307,6 +310,21 @@ def scan_family():
         fail("masked_iterate_final: final value is not the last unmasked step's")
     two = step.iterate_final(n=2).simulate(KEY, (0.0,))
     wf(two, "iterate_final")
+    # masked_iterate_final: non-prefix masks, and mask entries flipped by an update
+    det = gen(lambda x: x + 1.0)
+    fd = det.masked_iterate_final()
+    t0 = fd.simulate(KEY, (0.0, jnp.array([True, True, True])))
+    for newmask, want in (([True, False, True], 2.0), ([False, True, True], 2.0), ([False, False, False], 0.0)):
+        nm = jnp.array(newmask)
+        new, w, rd, bwd = fd.edit(KEY, t0, Update(C.empty()), (Diff(0.0, NoChange), Diff(nm, UnknownChange)))
+        if not close(new.get_retval(), want):
+            fail("masked_iterate_final.update: a step switched off still advances the value / switched on does not",
+                 mask=newmask, got=new.get_retval(), want=want)
+    ft = step.masked_iterate_final()
+    g, w = ft.importance(KEY, C.empty().at[0, "s"].set(5.0).at[1, "s"].set(0.3), (0.0, jnp.array([False, True])))
+    if not (close(g.get_retval(), 0.3) and close(g.get_score(), normal.assess(C.choice(0.3), (0.0, 1.0))[0])):
+        fail("masked_iterate_final: a False step followed by a True step: the True step is not evaluated at the unchanged value",
+             retval=g.get_retval(), score=g.get_score())
 
 
 def static_family():
@@ -354,6 +372,22 @@ def static_family():
             fail("static.project: project(S)+project(~S) != score", sel=sel)
 
     @gen
+    def shared_prefix(m):
+        b = normal(m, 1.0) @ ("a", "b")
+        c = normal(b, 2.0) @ ("a", "c")
+        d = normal(c, 0.5) @ "d"
+        return d
+    t = shared_prefix.simulate(KEY, (0.1,))
+    ch = t.get_choices()
+    lp = {"b": normal.assess(C.choice(ch["a", "b"]), (0.1, 1.0))[0], "c": normal.assess(C.choice(ch["a", "c"]), (ch["a", "b"], 2.0))[0],
+          "d": normal.assess(C.choice(ch["d"]), (ch["a", "c"], 0.5))[0]}
+    for nm, s_, want in (("S['a']", S.at["a"], lp["b"] + lp["c"]), ("S['a','c']", S.at["a", "c"], lp["c"]),
+                         ("S['a'] | S['d']", S.at["a"] | S.at["d"], lp["b"] + lp["c"] + lp["d"]), ("~S['a']", ~S.at["a"], lp["d"])):
+        got = shared_prefix.project(KEY, t, s_)
+        if not close(got, want):
+            fail("static.project: not the sum of the selected choices' log-densities (addresses sharing a prefix)", sel=nm, got=got, want=want)
+
+    @gen
     def dup():
         a = normal(0.0, 1.0) @ "x"
         b = normal(0.0, 1.0) @ "x"
@@ -399,6 +433,62 @@ def closure_family():
     t2 = kw.simulate(KEY, (2.0,))
     if not close(t2.get_score(), normal.assess(C.choice(t2.get_choices()["x"]), (3.0, 2.0))[0]):
         fail("closure with kwargs: score is not the density with the keyword merged")
+
+
+def choice_map_family():
+    """C17 on the real classes: lookups against a reference finite map (value, present?)"""
+    def look(m, *addr):
+        if m is None:
+            return (False, None)
+        v = m.get_submap(*addr).get_value()
+        if v is None:
+            return (False, None)
+        if isinstance(v, Mask):
+            return (bool(jnp.all(v.primal_flag())), float(jnp.ravel(jnp.asarray(v.value))[0]))
+        return (True, float(jnp.ravel(jnp.asarray(v))[0]))
+
+    def expect(what, m, ref, addrs):
+        for a in addrs:
+            try:
+                got = look(m, *a)
+            except Exception as e:
+                got = ("raised", type(e).__name__)
+            want = ref.get(a, (False, None))
+            if got[0] != want[0] or (want[0] is True and abs(got[1] - want[1]) > 1e-6):
+                fail(f"choice map {what}: lookup disagrees with the reference finite map", addr=a, got=got, want=want)
+    m1, m2 = C.d({"x": 1.0, ("g", "y"): 2.0}), C.d({"x": 3.0, ("g", "z"): 4.0})
+    A2 = [("x",), ("g", "y"), ("g", "z"), ("y",), ("g", "x")]
+    expect("|", m1 | m2, {("x",): (True, 1.0), ("g", "y"): (True, 2.0), ("g", "z"): (True, 4.0)}, A2)
+    expect("mask(False)", (m1 | m2).mask(False), {}, A2)
+    expect("mask(traced True)", m1.mask(jnp.array(True)), {("x",): (True, 1.0), ("g", "y"): (True, 2.0)}, A2)
+    expect("filter", (m1 | m2).filter(S.at["g"]), {("g", "y"): (True, 2.0), ("g", "z"): (True, 4.0)}, A2)
+    expect("filter complement", (m1 | m2).filter(~S.at["g"]), {("x",): (True, 1.0)}, A2)
+    for kind, mk in (("int", lambda i: i), ("array", lambda i: jnp.array(i))):
+        for k in (0, 1):
+            sw = C.switch(mk(k), [C.kw(x=10.0), C.kw(x=20.0, y=30.0)])
+            plain = C.kw(x=9.0)
+            ref_l = {("x",): (True, 9.0)}
+            ref_r = {("x",): (True, 10.0 if k == 0 else 20.0)}
+            if k == 1:
+                ref_l[("y",)] = (True, 30.0)
+                ref_r[("y",)] = (True, 30.0)
+            expect(f"plain | switch[{kind} index {k}] (left-biased)", plain | sw, ref_l, [("x",), ("y",)])
+            expect(f"switch[{kind} index {k}] | plain (left-biased)", sw | plain, ref_r, [("x",), ("y",)])
+    u = C.entry(1.0, 0, "x") | C.entry(2.0, 1, "y")
+    full = {(0, "x"): (True, 1.0), (1, "y"): (True, 2.0)}
+    AI = [(0, "x"), (0, "y"), (1, "x"), (1, "y")]
+    expect("index-level union", u, full, AI)
+    expect("index-level union .filter(x)", u.filter(S.at["x"]), {(0, "x"): (True, 1.0)}, AI)
+    expect("index-level union .filter(~x)", u.filter(~S.at["x"]), {(1, "y"): (True, 2.0)}, AI)
+    expect("index-level union .mask(False)", u.mask(False), {}, AI)
+    expect("index-level union .mask(traced False)", u.mask(jnp.array(False)), {}, AI)
+    for k in (0, 1):
+        sw2 = C.switch(jnp.array(k), [u, C.empty()])
+        expect(f"switch[{k}] over an index-level union", sw2, full if k == 0 else {}, AI)
+    sel = (m1 | m2).get_selection()
+    for a, want in ((("x",), True), (("g", "y"), True), (("g",), False), (("q",), False)):
+        if bool(sel[a]) != want:
+            fail("choice map get_selection: does not select exactly the map's addresses", addr=a)
 
 
 def time_travel_family():
@@ -551,7 +641,7 @@ def selection_family():
 
 
 FAMILIES = [
-    (("C19.Mask.", "Mask._or_idx"), mask_algebra_family), (("C18.",), selection_family), ((".Diff.",), diff_family), (("C31.",), time_travel_family),
+    (("C19.Mask.", "Mask._or_idx"), mask_algebra_family), (("C18.",), selection_family), ((".Diff.",), diff_family), (("C31.",), time_travel_family), (("C17.",), choice_map_family),
     (("MaskCombinator", "MaskTrace"), mask_family), (("Distribution", "ExactDensity"), distribution_family),
     (("Dimap",), dimap_family), (("Switch",), switch_family), (("Vmap", "repeat"), vmap_family),
     (("Scan", "iterate", "accumulate", "reduce", "masked_iterate"), scan_family),
